@@ -787,7 +787,7 @@ Section FormatterSound.
     - apply (fs_comment F HF).
     - destruct (c =? 10).
       + apply sound_app; [apply (fs_comment F HF)|]. apply sound_app; [apply (fs_newline F HF)|apply IH].
-      + destruct (p_crforbidden v11 c); [reflexivity|apply IH].
+      + destruct (p_comment_error v11 c); [reflexivity|apply IH].
   Qed.
 
   Lemma write_content_sound : forall s, sound kb (write_content F v11 s).
